@@ -2,26 +2,30 @@
 # benigncheck.sh <PROP> <k> : validate one behaviour-preserving refactoring written by a sub-agent and run
 # every check on it.  Any check that does not exit 0 on it is a false alarm (exit 1) or an incomplete
 # analysis (exit 2) of the machinery.
-# Input:  /tmp/wtb_<PROP>/seed_out/patch<k>.diff, equiv<k>.py, notes<k>.md
+# Input:  /tmp/wtb_<PROP>/seed_out/patch<k>.diff, equiv<k>.py, notes<k>.md   (round 2: /tmp/wtb2_<PROP>, tag <PROP>-r2-<k>)
+# A patch stored under /verif/seeded/benign/<tag>/patch.diff (e.g. rebased onto a later HEAD) takes precedence.
 # Output: /verif/seeded/benign/<PROP>-<k>/{patch.diff,equiv.py,notes.md,meta.json,checks.txt}
 set -u
-P=$1; K=$2
-ORIG=/tmp/wtb_$P; SRC=$ORIG/seed_out; TAG=$P-$K
+P=$1; K=$2; R=${3:-1}
+if [ "$R" = "2" ]; then ORIG=/tmp/wtb2_$P; TAG=$P-r2-$K; else ORIG=/tmp/wtb_$P; TAG=$P-$K; fi
+SRC=$ORIG/seed_out
 WT=/tmp/sb_$TAG
 OUT=/verif/seeded/benign/$TAG
 [ -f $SRC/patch$K.diff ] || { echo "no patch $SRC/patch$K.diff"; exit 3; }
+PATCH=$SRC/patch$K.diff
+[ -f $OUT/patch.diff ] && PATCH=$OUT/patch.diff
 rm -rf $WT; git -C /repo worktree add -q --detach $WT HEAD || exit 3
 cd $WT
-res_apply=ok; git apply $SRC/patch$K.diff || res_apply=fail
+res_apply=ok; git apply $PATCH 2>/dev/null || git apply -3 $PATCH || res_apply=fail
 tests=$(PYTHONPATH=$WT timeout 900 /venv/bin/python -m pytest -q -p no:cacheprovider tests 2>&1 | tail -1)
 LOCK=/tmp/seedlock_$(basename $ORIG)
-flock $LOCK sh -c "cd $ORIG && git checkout -q -- . && git apply $SRC/patch$K.diff && PYTHONPATH=$ORIG timeout 3000 /venv/bin/python seed_out/equiv$K.py > $WT/equiv_with.log 2>&1; git checkout -q -- ."
-flock $LOCK sh -c "cd $ORIG && git checkout -q -- . && PYTHONPATH=$ORIG timeout 3000 /venv/bin/python seed_out/equiv$K.py > $WT/equiv_without.log 2>&1"
+flock $LOCK sh -c "cd $ORIG && git checkout -q -- . && git apply $SRC/patch$K.diff && PYTHONPATH=$ORIG timeout 3000 /venv/bin/python seed_out/equiv$K.py > $WT/equiv_with.log 2> $WT/equiv_with.err; git checkout -q -- ."
+flock $LOCK sh -c "cd $ORIG && git checkout -q -- . && PYTHONPATH=$ORIG timeout 3000 /venv/bin/python seed_out/equiv$K.py > $WT/equiv_without.log 2> $WT/equiv_without.err"
 same=no; cmp -s $WT/equiv_with.log $WT/equiv_without.log && [ -s $WT/equiv_with.log ] && same=yes
 mkdir -p $WT/chk
 ls /verif/sa/checks | sed -n 's/^\(c[0-9][0-9]\)\.py$/\1/p' | tr a-z A-Z | xargs -P 10 -I{} sh -c "cd /verif && timeout 900 /venv/bin/python sa/run.py {} --repo $WT --scratch > $WT/chk/{}.log 2>&1; echo \$? > $WT/chk/{}.rc"
 mkdir -p $OUT
-cp $SRC/patch$K.diff $OUT/patch.diff; cp $SRC/equiv$K.py $OUT/equiv.py; cp $SRC/notes$K.md $OUT/notes.md 2>/dev/null
+[ -f $OUT/patch.diff ] || cp $SRC/patch$K.diff $OUT/patch.diff; cp $SRC/equiv$K.py $OUT/equiv.py; cp $SRC/notes$K.md $OUT/notes.md 2>/dev/null
 : > $OUT/checks.txt
 alarm=""; undec=""
 for f in $WT/chk/*.rc; do id=$(basename $f .rc); rc=$(cat $f);
@@ -29,14 +33,16 @@ for f in $WT/chk/*.rc; do id=$(basename $f .rc); rc=$(cat $f);
   if [ "$rc" = "1" ]; then alarm="$alarm $id"; grep -B2 "^VIOLATION" $WT/chk/$id.log | grep -v "^VIOLATION\|witness\|^--" | cut -c1-400 | sed "s/^/$id: /" >> $OUT/checks.txt; fi
   if [ "$rc" != "0" ] && [ "$rc" != "1" ]; then undec="$undec $id"; grep -E "^UNDECIDED|^ANALYSIS-ERROR" $WT/chk/$id.log | cut -c1-300 | sed "s/^/$id: /" >> $OUT/checks.txt; fi
 done
-/venv/bin/python - "$P" "$K" "$res_apply" "$tests" "$same" "$alarm" "$undec" <<'PY'
+BENIGN_TAG=$TAG /venv/bin/python - "$P" "$K" "$res_apply" "$tests" "$same" "$alarm" "$undec" <<'PY'
 import json,sys
 P,K,app,tests,same,alarm,undec=sys.argv[1:8]
 import os, re
 # what the checks said the first time this refactoring was run (before any correction of the machinery):
 # kept from the first run's meta.json
 first_pass=None
-mp="/verif/seeded/benign/%s-%s/meta.json"%(P,K)
+import os as _os
+TAG=_os.environ.get("BENIGN_TAG","%s-%s"%(P,K))
+mp="/verif/seeded/benign/%s/meta.json"%TAG
 if os.path.exists(mp):
     try:
         old=json.load(open(mp))
@@ -51,7 +57,7 @@ meta={"property":P,"variant":int(K),"kind":"behaviour-preserving refactoring","p
       "checks_raising_alarm":alarm.split(),"checks_analysis_incomplete":undec.split(),
       "first_pass": first_pass,
       "how_run":"sa/benigncheck.sh %s %s: patch applied in a scratch worktree of /repo HEAD; pytest tests; equiv script with/without the change in the agent's worktree (outputs compared); every check run with --repo <worktree> --scratch"%(P,K)}
-json.dump(meta,open("/verif/seeded/benign/%s-%s/meta.json"%(P,K),"w"),indent=1)
+json.dump(meta,open("/verif/seeded/benign/%s/meta.json"%TAG,"w"),indent=1)
 print(json.dumps(meta))
 PY
 cd /; git -C /repo worktree remove --force $WT
